@@ -12,7 +12,7 @@
              model allows; after checking, the model continues from the OBSERVED file.
    monitor = the property on the implementation's own observations only. *)
 From Coq Require Import List NArith Bool Arith.
-From NSQV Require Import model.Judge model.Names model.Meta.
+From NSQV Require Import model.Judge model.Names model.Meta model.PathLock.
 Import ListNotations.
 Open Scope nat_scope.
 Open Scope bool_scope.
@@ -114,10 +114,40 @@ Record cycle := mkCy {
   cy_sys : list sysop            (* strace projection on nsqd.dat*, [] when not traced *)
 }.
 
+(* what the first daemon is doing when a second one is started on its data path *)
+Inductive lphase :=
+| LBoot               (* inside the start-up PersistMetadata, not serving yet *)
+| LServing            (* idle *)
+| LPersisting         (* a Notify goroutine inside PersistMetadata *)
+| LExitTopicsClosed   (* SIGTERM: Exit() has closed the topics (parked at the verif hook there) *)
+| LExitSubsystems     (* SIGTERM: Exit() waits for the background goroutines, one still pending *)
+| LExited             (* SIGTERM: the process has ended by itself *)
+| LKilled.            (* SIGKILL *)
+(* the property's reading of "in use": until the daemon's Exit has returned / the process is gone *)
+Definition phase_in_use (ph : lphase) : bool :=
+  match ph with LExited | LKilled => false | _ => true end.
+(* the model (model/PathLock.v, life program built from the source) brought to that phase *)
+Definition first_at (ph : lphase) : world :=
+  match ph with
+  | LBoot => first_until lbl_boot_persist
+  | LServing => first_until lbl_signal
+  | LPersisting => lstep_src (first_until lbl_signal) (EvBg 0)
+  | LExitTopicsClosed => first_until lbl_topics_closed
+  | LExitSubsystems => first_until lbl_wait
+  | LExited => first_gone
+  | LKilled => lstep_src (first_until lbl_signal) (EvKill 0)
+  end.
+
 Inductive case :=
 | Churn (cycles : list cycle)
 | LoadCase (present : bool) (d : doc) (full : bool) (started : bool) (seen : doc)
-| DirLock (second_refused first_alive third_started : bool)
+  (* data-path lock: a second daemon is started on the data path while the first one is at phase
+     [ph] of its life.  second_started: it came to serve; second_refused: it exited non-zero by
+     itself without serving; dat_same: nsqd.dat is the same file with the same bytes after the
+     attempt; first_still: the first daemon is still where it was; then everything is killed and a
+     third daemon is started: third_started, nsqd.dat before it, what it shows *)
+| PathLock (ph : lphase) (second_started second_refused dat_same first_still third_started : bool)
+           (file : option doc) (seen : doc)
   (* two concurrent deleters parked between lookup and map removal, a persist parked between
      two topic reads of GetMetadata, SIGKILL right after its rename (known finding K8):
      the live states the daemon passed through, nsqd.dat after the kill, /stats after restart *)
@@ -425,9 +455,22 @@ Definition judge (c : case) : N :=
         if present && negb full then true
         else started && forallb (fun e => valid (dt_name e) && forallb (fun x => valid (dc_name x)) (dt_chans e)) seen in
       verdict agree monitor
-  | DirLock second_refused first_alive third_started =>
-      let ok := second_refused && first_alive && third_started in
-      verdict ok ok
+  | PathLock ph second_started second_refused dat_same first_still third_started file seen =>
+      (* model: the first daemon at that phase; the second one runs as far as it gets *)
+      let w := first_at ph in
+      let serves := second_serves w in
+      let agree :=
+        Bool.eqb (path_in_use w) (phase_in_use ph)
+        && Bool.eqb second_started serves && Bool.eqb second_refused (negb serves)
+        && negb (clash w) in
+      (* property: while the path is in use the second daemon refuses to start (and leaves the
+         first daemon and its metadata alone); once the first one is gone the path can be taken
+         over; what is then served is what nsqd.dat holds *)
+      let monitor :=
+        (if phase_in_use ph then negb second_started && second_refused && dat_same && first_still
+         else second_started && negb second_refused)
+        && third_started && doc_equiv seen (match file with Some f => f | None => [] end) in
+      verdict agree monitor
   | Mix passed file restarted seen =>
       (* model (C06_atomic): the topic set is that of one passed-through state and every entry
          is that topic's entry in some passed-through state; the restart shows the file *)
